@@ -208,6 +208,17 @@ func runProgram(stack, dir string, prog int, calls []pdrv.Call, cases []corrCase
 	return len(cases)
 }
 
+// validateAll runs the validator; a panic of the code under test is an outcome (logged as
+// an error class the model does not know), not a failure of the harness.
+func validateAll(ctx context.Context, v *integrity.Validator) (report *integrity.ValidationReport, err error) {
+	defer func() {
+		if r := recover(); r != nil {
+			report, err = nil, fmt.Errorf("panic: %v", r)
+		}
+	}()
+	return v.ValidateAll(ctx)
+}
+
 func runCase(stack, dir string, prog, cno int, k corrCase, it *pdrv.Interp, w *vtrace.Writer) {
 	ctx := context.Background()
 	b, err := stacks.Open(stack, dir)
@@ -242,7 +253,7 @@ func runCase(stack, dir string, prog, cno int, k corrCase, it *pdrv.Interp, w *v
 
 	// ---- validate, constructed as cmd/pithos.go validateStorage does
 	validator := integrity.NewValidator(b.Storage, b.DB, k.Del, true)
-	report, verr := validator.ValidateAll(ctx)
+	report, verr := validateAll(ctx, validator)
 	failed, passed, deleted, other := []any{}, []any{}, []any{}, []any{}
 	counts := map[string]any{"total": 0, "ok": 0, "failed": 0, "deleted": 0, "buckets": 0}
 	detail := []any{}
